@@ -315,6 +315,7 @@ def proto_form(p):
     """What the schema of a node constrains: operator, attribute names/kinds, arities."""
     return {"op": p.op_type, "domain": "" if p.domain == "ai.onnx" else p.domain,
             "attrs": sorted((a.name, int(a.type)) for a in p.attribute),
+            "vals": sorted((a.name, a.SerializeToString().hex()) for a in p.attribute),
             "n_in": len(p.input), "n_out": len(p.output)}
 
 
@@ -449,7 +450,7 @@ def compare(real, m, mismatches):
                 if pr:
                     mismatches.append(("converter", f"{rec['op']} -> {tgt}: emitted {fm['op']} {pr[0]}"))
             if forms and "mustChange" in e:
-                changed = (forms[0]["attrs"], forms[0]["n_in"]) != (rec["orig_form"]["attrs"], rec["orig_form"]["n_in"])
+                changed = (forms[0]["vals"], forms[0]["n_in"]) != (rec["orig_form"]["vals"], rec["orig_form"]["n_in"])
                 if e["mustChange"] and not changed:
                     mismatches.append(("converter", f"{rec['op']} -> {tgt}: form unchanged although the old form is not accepted at the target"))
     if real["complete"]:
@@ -466,6 +467,48 @@ def compare(real, m, mismatches):
                 mismatches.append(("functions", f"function {name} not in model.functions"))
             elif ri != mf["imports"]:
                 mismatches.append(("functions", f"{name}: real imports {ri} model {mf['imports']}"))
+
+
+def _empty_result(job):
+    return {"idx": job[0], "fam": job[1], "real": None, "verdict": None, "small": None, "v2": None, "key": None,
+            "feats": None, "crash": None, "stats": {}, "unsupported": []}
+
+
+def process_chunk(chunk):
+    """Each case runs in a forked child of the worker, so that an abort inside onnxruntime (a C++
+    assertion kills the process) costs exactly that case: it comes back as `died`."""
+    import os
+    import pickle
+
+    out = []
+    for j in chunk:
+        r_fd, w_fd = os.pipe()
+        pid = os.fork()
+        if pid == 0:  # child
+            code = 0
+            try:
+                os.close(r_fd)
+                data = pickle.dumps(process_case(j))
+                with os.fdopen(w_fd, "wb") as w:
+                    w.write(data)
+            except BaseException:  # noqa: BLE001
+                code = 1
+            finally:
+                os._exit(code)
+        os.close(w_fd)
+        chunks_ = []
+        with os.fdopen(r_fd, "rb") as r:
+            while True:
+                b = r.read(1 << 16)
+                if not b:
+                    break
+                chunks_.append(b)
+        os.waitpid(pid, 0)
+        try:
+            out.append(pickle.loads(b"".join(chunks_)))
+        except Exception:  # noqa: BLE001
+            out.append(dict(_empty_result(j), died=True))
+    return out
 
 
 def process_case(args):
@@ -635,7 +678,8 @@ def classify(stage, prog, msg=""):
     feats.discard("two-fresh-values")
     body_family = {"conv-in-body-below-import", "inline-in-body-below-import", "conv-unknown-rank"}
     # adapt_node's own checker call on a singleton model with a shape-less value info
-    if stage == "build-raises-ValidationError" and "Field 'shape'" in msg and "conv-unknown-rank" in feats \
+    if stage in ("build-raises-ValidationError", "construct-raises-ValidationError") and "Field 'shape'" in msg \
+            and "conv-unknown-rank" in feats \
             and feats <= body_family:
         return "adapt:unknown-rank:build-fails"
     if bad_attr and "conv-in-body-below-import" in feats and feats <= body_family:
@@ -727,6 +771,10 @@ def shrink(prog, stage, budget=120):
                     inner = chk(st["body"]["nodes"], set(st["params"]))
                     if inner is False or st["body"]["out"] not in inner:
                         return False
+                if st["op"] == "loop":
+                    inner = chk(st["body"]["nodes"], vis | {st["param"]})
+                    if inner is False or st["body"]["out"] not in inner:
+                        return False
                 vis.add(st["id"])
             return vis
 
@@ -773,7 +821,7 @@ def witness_programs():
 def gen_programs(ck):
     rng = ck.rng
     progs = []
-    n = ck.pick(1500, 40000)
+    n = ck.pick(1200, 20000)
     for i in range(n):
         r = rng.random()
         clean = r < 0.85
@@ -782,7 +830,7 @@ def gen_programs(ck):
         prog = g.program()
         progs.append(("clean" if clean else "dirty", prog))
         has_func = any(st["op"] == "func" for st, *_ in L.walk(prog["nodes"]))
-        has_dyn = any(st["op"] == "dyn" for st, *_ in L.walk(prog["nodes"]))
+        has_dyn = bool(L.tainted_ids(prog))  # values of unknown rank (run-time reshape, Loop results)
         if clean and not has_dyn and (has_func or rng.random() < 0.08):
             # multi-build history: the same Vars (function applications included) are first built into
             # a model with the original outputs, then into one whose maximum is raised by v21 identities
@@ -838,6 +886,27 @@ def targeted_programs():
                         st("g", "identity", 21, ["f"])], "outs": ["g", "f"]})
     P.append({"nodes": [{"id": "a", "op": "inline", "model": {"kind": "ml_only", "mlv": 2}, "args": ["x"]},
                         st("b", "rmean", 17, ["a"], axis=1), st("c", "identity", 19, ["b"])], "outs": ["c"]})
+    # every operator whose schema changed between 17 and 21, written against an old module, next to a newer one
+    for k, opn in enumerate(sorted(L.ORT_MACROS)):
+        for src, (top, tmv) in ((17, ("identity", 21)), (18, ("isnan_w", 20)), (19, ("identity", 21))):
+            P.append({"nodes": [st("a", opn, src, ["x"]), st("b", top, tmv, ["a"])], "outs": ["b"]})
+    # Loop bodies (has-subgraph, never converted themselves) with convertible nodes inside
+    P.append({"nodes": [{"id": "l", "op": "loop", "mv": 17, "param": "s", "args": ["x"],
+                         "body": {"nodes": [st("t", "rmean", 17, ["s"], axis=1), st("u", "add", 17, ["t", "y"])], "out": "u"}},
+                        st("d", "fix", 21, ["l"])], "outs": ["d"]})
+    P.append({"nodes": [{"id": "l", "op": "loop", "mv": 19, "param": "s", "args": ["x"],
+                         "body": {"nodes": [{"id": "i", "op": "if", "mv": 17, "cond": "c",
+                                             "then": {"nodes": [st("t", "rl2", 17, ["s"], axis=0)], "out": "t"},
+                                             "else": {"nodes": [st("e", "grid_sample", 18, ["s"])], "out": "e"}}], "out": "i"}},
+                        st("d0", "fix", 21, ["l"]), st("d", "isnan_w", 20, ["d0"])], "outs": ["d"]})
+    # a function body alone carries the model's maximum; a convertible node sits in a body elsewhere
+    for hi, (pop, pmv) in ((21, ("identity", 21)), (19, ("identity", 19)), (18, ("pad", 18))):
+        P.append({"nodes": [{"id": "f", "op": "func", "name": f"fhi{hi}", "params": ["p"], "args": ["y"],
+                             "body": {"nodes": [st("q", pop, pmv, ["p"])], "out": "q"}},
+                            {"id": "i", "op": "if", "mv": 17, "cond": "c",
+                             "then": {"nodes": [st("t", "rmean", 17, ["x"], axis=1)], "out": "t"},
+                             "else": {"nodes": [st("e", "neg", 17, ["x"])], "out": "e"}},
+                            st("d", "add", 17, ["f", "i"])], "outs": ["d"]})
     # the same function application built twice, in models with different maxima
     P.append({"nodes": [{"id": "f", "op": "func", "name": "ftwice", "params": ["p"], "args": ["x"],
                          "body": {"nodes": [st("q", "rmean", 17, ["p"], axis=0), st("r", "rmax", 18, ["q"], axis=1)], "out": "r"}},
@@ -959,7 +1028,7 @@ def run(ck: core.Check):
     cases += gen_programs(ck)
 
     stats = {"programs": 0, "built": 0, "max_depth": 0, "with_if": 0, "with_inline": 0, "with_func": 0,
-             "with_ml": 0, "with_dyn": 0, "with_history": 0, "nodes_adapted": 0, "converted_nodes": 0,
+             "with_ml": 0, "with_dyn": 0, "with_loop": 0, "with_changed_schema_op": 0, "with_history": 0, "nodes_adapted": 0, "converted_nodes": 0,
              "converted_inlines": 0, "conversions_form_checked": 0, "imports_seen": {}, "stages": {},
              "worker_crashes": 0}
     import multiprocessing as mp
@@ -969,15 +1038,38 @@ def run(ck: core.Check):
     jobs = [(i, fam, prog, budget) for i, (fam, prog) in enumerate(cases)]
     nproc = max(1, min(int(os.environ.get("VERIF_JOBS", "0") or 0) or 12, os.cpu_count() or 1, len(jobs)))
     results = None
+    deaths: list = []
     if nproc > 1:
+        # A worker can die (onnxruntime aborts in C++ on some models): never hang, never lose the other cases.
+        from concurrent.futures import ProcessPoolExecutor
+        from concurrent.futures.process import BrokenProcessPool
+
+        ctx = mp.get_context("fork")
+        done: dict[int, dict] = {}
+        chunks = [jobs[i:i + 8] for i in range(0, len(jobs), 8)]
         try:
-            with mp.get_context("fork").Pool(nproc) as pool:
-                results = pool.map(process_case, jobs, chunksize=4)
+            with ProcessPoolExecutor(nproc, mp_context=ctx) as ex:
+                futs = [(ch, ex.submit(process_chunk, ch)) for ch in chunks]
+                for ch, f in futs:
+                    try:
+                        for r in f.result():
+                            done[r["idx"]] = r
+                    except BrokenProcessPool:
+                        pass
+                    except Exception as e:  # noqa: BLE001
+                        for j in ch:
+                            done[j[0]] = dict(_empty_result(j), crash=f"{type(e).__name__}: {e}")
         except Exception as e:  # noqa: BLE001
             ck.broken("infrastructure", "C09 worker pool", f"{type(e).__name__}: {e}")
-            results = None
-    if results is None:
-        results = [process_case(j) for j in jobs]
+        todo = [j for j in jobs if j[0] not in done]
+        for j in todo:  # one process per remaining case: the one that kills its process is identified
+            try:
+                with ProcessPoolExecutor(1, mp_context=ctx) as ex1:
+                    done[j[0]] = ex1.submit(process_case, j).result(timeout=300)
+            except Exception as e:  # noqa: BLE001
+                deaths.append({"prog": j[2], "how": f"{type(e).__name__}"})
+                done[j[0]] = dict(_empty_result(j), died=True)
+        results = [done[j[0]] for j in jobs]
     results.sort(key=lambda r: r["idx"])
 
     # model side: one batch through the driver, in case order
@@ -993,6 +1085,12 @@ def run(ck: core.Check):
     kinds_reported: dict[str, int] = {}
     for r, (fam, prog) in zip(results, cases):
         stats["programs"] += 1
+        if r.get("died"):
+            # the process running this case was killed (an abort inside onnxruntime): recorded, not a verdict
+            stats["worker_deaths"] = stats.get("worker_deaths", 0) + 1
+            if len(deaths) < 3:
+                deaths.append({"prog": prog, "how": "process died"})
+            continue
         if r["crash"]:
             stats["worker_crashes"] += 1
             if stats["worker_crashes"] <= 3:
@@ -1018,6 +1116,8 @@ def run(ck: core.Check):
         for k, o in (("with_if", "if"), ("with_inline", "inline"), ("with_func", "func"), ("with_dyn", "dyn")):
             stats[k] += int(o in ops_used)
         stats["with_ml"] += int(any(o.startswith("ml_") for o in ops_used))
+        stats["with_loop"] += int("loop" in ops_used)
+        stats["with_changed_schema_op"] += int(any(o in L.ORT_MACROS for o in ops_used))
         stats["with_history"] += int("prebuild_outs" in prog)
         for k in ("nodes_adapted", "converted_nodes", "converted_inlines"):
             stats[k] += r["stats"].get(k, 0)
@@ -1041,6 +1141,7 @@ def run(ck: core.Check):
         "schema_lookups_compared": n_sch,
         "distribution": stats,
         "runtime_unsupported": {"count": len(UNSUPPORTED), "examples": UNSUPPORTED[:3]},
+        "worker_deaths": deaths[:3],
     })
     ck.exhaustive = False
     ck.rule = (
